@@ -32,6 +32,7 @@ type docGen struct {
 	noSig      bool
 	plain      bool // scalars are strings and small non-negative integers only
 	typed      bool // also steps whose kind comes from an explicit `type` key
+	scalarCfg  bool // plugin configs may be scalars (false, 0, "", ...)
 	scalarEnv  bool // env and matrix values may be any scalar kind, not only strings
 	plainNums  bool // floats always have a fractional part (an integral float cannot survive JSON as a float)
 }
@@ -112,8 +113,13 @@ func (g *docGen) envMap() orderedJSON {
 func (g *docGen) pluginSource() string { return g.str("pluginsrc") }
 
 func (g *docGen) pluginConfig() any {
-	switch g.pick(4) {
+	switch g.pick(6) {
 	case 0:
+		return nil
+	case 1:
+		if g.scalarCfg {
+			return []any{false, 0, "", "cfg", 5, true}[g.pick(6)] // a scalar config is data too
+		}
 		return nil
 	default:
 		return g.freeMap(1, g.mapSize(1+g.pick(3)))
@@ -131,11 +137,17 @@ func (g *docGen) plugins() any {
 		return orderedJSON(pairs)
 	default: // list of one-entry mappings / bare strings
 		l := []any{}
+		used := []string{}
 		for i := 0; i < n; i++ {
+			src := g.pluginSource()
+			if len(used) > 0 && g.pick(4) == 0 {
+				src = used[g.pick(len(used))] // the same plugin listed twice is two entries
+			}
+			used = append(used, src)
 			if g.pick(4) == 0 {
-				l = append(l, g.pluginSource())
+				l = append(l, src)
 			} else {
-				l = append(l, orderedJSON([][2]any{{g.pluginSource(), g.pluginConfig()}}))
+				l = append(l, orderedJSON([][2]any{{src, g.pluginConfig()}}))
 			}
 		}
 		return l
@@ -213,6 +225,9 @@ func (g *docGen) matrix() any {
 	}
 	if g.pick(3) == 0 {
 		out = append(out, [2]any{g.str("key"), g.anyValue(1)})
+	}
+	if len(out) == 1 && g.pick(3) == 0 {
+		out = append(out, [2]any{"adjustments", []any{}}) // written, but empty: same as absent
 	}
 	return orderedJSON(out)
 }
